@@ -356,11 +356,15 @@ def cases(tier):
     out = []
     for name, (tags, fmts) in MENUS.items():
         for fmt in fmts:
-            for k in ((1, 2) if q else (1, 2, 3)):
-                if q and k == 2 and fmt == 'auto' and name != 'mixed':
-                    continue
-                tg = tags if (not q or k == 1) else tags[:3]
-                out.append(dict(name=name, fmt=fmt, commits=k, tags=tg, branch=list('main') if k == 1 else None, status_len=(k % 2) * 2))
+            for k in ((1, 2) if q else (1, 2, 3, 4)):
+                out.append(dict(name=name, fmt=fmt, commits=k, tags=tags, branch=list('main') if k == 1 else None, status_len=(k % 2) * 2))
+    for name in ('semver_order', 'mixed', 'spelling'):
+        tags, fmts = MENUS[name]
+        for fmt in fmts[:1] if q else fmts:
+            out.append(dict(name=name, fmt=fmt, commits=3 if q else 5, tags=tags, branch=list('dv'), status_len=1))
+    if not q:
+        out.append(dict(name='five_tags', fmt='semver', commits=2, tags=['v1.0.0', 'v1.0.1', 'v1.0.1-rc.1', '1.0.1', 'stable'], branch=None, status_len=0))
+        out.append(dict(name='five_tags', fmt='auto', commits=2, tags=['v1.0.0', '1.0.0.post1', '1.0.1a1', 'v1.0.1-alpha.1', 'v1'], branch=None, status_len=0))
     out.append(dict(name='branch_text', fmt='semver', commits=1, tags=['v1.0.0'], branch=list('f/') + ['PATH', 'PATH'], status_len=1, dist_max=4294967295))
     out.append(dict(name='detached', fmt='semver', commits=1, tags=['v1.0.0'], branch=[], status_len=0))
     return out
